@@ -45,6 +45,11 @@ func (f iterFam) source() string {
 		return fmt.Sprintf("<{|i, step: %d| S(%d); yield i if i < %d; recur(i + step, step: step)}>", d, s, l)
 	case "slotafterrecur":
 		return fmt.Sprintf("<{|i| recur(i + %d); S(%d); yield i if i < %d}>", d, s, l)
+	case "implicit":
+		// no declared parameters: progress is carried by the implicit argument `\`
+		return fmt.Sprintf("<{S(%d); yield \\ if \\ < %d; recur(\\ + %d)}>", s, l, d)
+	case "implicit2":
+		return fmt.Sprintf("<{S(%d); yield \\1 * 10 if \\1 < %d; recur(\\1 + %d)}>", s, l, d)
 	}
 	panic("unknown family")
 }
@@ -71,9 +76,14 @@ func (f iterFam) next(st iterState, fault bool) (val int64, stop bool, errored b
 		return 0, false, true, ns
 	}
 	switch f.kind {
-	case "guard", "kw":
+	case "guard", "kw", "implicit":
 		if st.i < f.lim {
 			return st.i, false, false, adv
+		}
+		return 0, true, false, st
+	case "implicit2":
+		if st.i < f.lim {
+			return st.i * 10, false, false, adv
 		}
 		return 0, true, false, st
 	case "noguard":
@@ -198,7 +208,7 @@ func (c *c14Check) Run(seed, run uint64, rec []uint32, st Stats, only *Viol) []V
 	}
 	s.Histories++
 	// 1..2 generator literals
-	kinds := []string{"guard", "noguard", "recurfirst", "twoyields", "norecur", "kw", "slotafterrecur"}
+	kinds := []string{"guard", "noguard", "recurfirst", "twoyields", "norecur", "kw", "slotafterrecur", "implicit", "implicit2"}
 	nf := 1 + t.Intn(2)
 	fams := make([]iterFam, nf)
 	env := object.NewEnclosedEnv(c.it.Global)
